@@ -102,6 +102,17 @@ Definition dispatch_tree (f : list N) (a : jv) : option jv :=
         | None => junsupported
         end
     | _ => junsupported end
+  else if is f "tree_guards" then
+    (* [tree_ok; tree_upper; norm t] under the decoder oracle: the guards and the prediction of theorem C01_stable *)
+    Some match a with
+    | JL [c; JZ sorted; JL oracle] =>
+        match comp_of c, opt_all (map oentry_of oracle) with
+        | Some c', Some o =>
+            let sd := negb (sorted =? 0)%Z in
+            JL [jbool (tree_ok (fun k v t => olookup o (k, v, t)) sd c'); jbool (tree_upper c'); jcomp (norm sd c')]
+        | _, _ => junsupported
+        end
+    | _ => junsupported end
   else if is f "tree_walk" then
     (* names of the components returned by walk(name) together with their pre-order index *)
     Some match a with
